@@ -2,7 +2,9 @@
 """Debug helper: run one configuration of one check inline and print what it found.
 usage: tools/runcfg.py <check module> '<cfg json or config id substring>' [tier]"""
 import json, sys, os
-sys.path.insert(0, '/verif'); sys.path.insert(0, '/repo/src')
+sys.path.insert(0, '/verif')
+if not os.environ.get('PYTHONPATH'):
+    sys.path.insert(0, '/repo/src')  # default: the tree under /repo; a PYTHONPATH selects another one
 from dsmc.env import install, REAL_TIME
 install()
 import importlib
